@@ -26,8 +26,8 @@ def merge_mech(work, V, n=5, cfgs=(('sweep', 'MC_Merge_sweep.cfg'), ('tokens', '
                 if drift <= 2:
                     V.note('mechanism-drift: %s(%s): model %s, code %s' % (mech, k, want, o))
         info.append({'module': 'MergeMech', 'cfg': cfg, 'distinct_states': r['distinct'], 'violation': r['violation'], 'inputs_replayed_into_code': len(cases), 'drift': drift})
-    r = tlc.run(work, 'MergeMech', cfg='MC_Merge_addto_noenv.cfg', timeout=600)
-    info.append({'module': 'MergeMech', 'cfg': 'MC_Merge_addto_noenv.cfg (regression: add_to without the environment assumption)', 'distinct_states': r['distinct'],
+    r = tlc.run(work, 'MergeMech', cfg='MC_Merge_addto_prefix.cfg', timeout=600)
+    info.append({'module': 'MergeMech', 'cfg': 'MC_Merge_addto_prefix.cfg (regression: add_to before the fix, a straddling candidate replaces what it covers)', 'distinct_states': r['distinct'],
                  'violation': r['violation'], 'expected_violation': 'AddDisjoint'})
     return info
 
